@@ -369,6 +369,10 @@ class SafeLearner(Learner):
             if self._pred_format.endswith('*'):
                 pred = list(pred.values())[0]
 
+            if self._pred_format == 'PM':
+                #one column of masses per action, transpose to get one pmf per row
+                pred = list(zip(*pred))
+
             if self._pred_format[:2] == 'PM':
                 A, P = list(map(list, zip(*map(self._rng.choicew,actions, pred))))
 
